@@ -3,6 +3,8 @@ CONSTANTS
   MaxCalls <- MC_MaxCalls
   Faults <- MC_Faults
   StartValid <- MC_StartValid
+  SetupChoices <- MC_SetupChoices
+  Shape <- MC_Shape
 SPECIFICATION Spec
 CHECK_DEADLOCK FALSE
 ACTION_CONSTRAINT Emit
@@ -10,3 +12,4 @@ INVARIANTS
   NeverPanics
   UninitExact
   UnsampledExact
+  CheckerInstalled
